@@ -114,6 +114,11 @@ impl KeyValueStore {
             mani.apply(edit)?;
         }
         let mut seq_no = Self::recover(&options, &mut mani)? + 1;
+        // NOTE:  The number of the last log a flush made redundant ('L').  Garbage collection can
+        // drop the newest entries of the tree, so the tree's maximum timestamp can fall back to
+        // (or below) that number; a session's first log must not take it again, or its flush
+        // records the same 'L' twice and overwrites trash/log.<L>.
+        let last_flushed_log: u64 = mani.info('L').and_then(|l| l.parse().ok()).unwrap_or(0);
         let tree = LsmTree::from_manifest(options.clone(), mani)?;
         let imm = None;
         let imm_trigger = 0;
@@ -123,6 +128,7 @@ impl KeyValueStore {
         // waits for trash/log.<L>; a log named before taking the tree's maximum timestamp into
         // account was never found under that name.
         seq_no = std::cmp::max(seq_no, tree.max_timestamp());
+        seq_no = std::cmp::max(seq_no, last_flushed_log + 1);
         let mem_path = LOG_FILE(&root, seq_no);
         let mem_log = Self::start_new_log(&mem_path, options.log.clone())?;
         let mem_seq_no = seq_no;
